@@ -117,51 +117,168 @@ theorem usablePri_some {n : Nat} {s : Option (PriShare F)} {i : Int} {v : F}
     · simp at h
   · simp at h
 
-/-- what `xScalarAux` collects, as `(x, value)` pairs: the first `t - cnt` usable entries -/
+/-! ### one share per index (the `seen` map of `xScalar` / `RecoverCommit`, /repo 2d8b40a) -/
+
+/-- first occurrence of every index that is not in `seen` -/
+def firstIdx {V : Type} : List Int → List (Int × V) → List (Int × V)
+  | _, [] => []
+  | seen, iv :: rest =>
+    if iv.1 ∈ seen then firstIdx seen rest else iv :: firstIdx (iv.1 :: seen) rest
+
+theorem firstIdx_mem {V : Type} (l : List (Int × V)) :
+    ∀ (seen : List Int) (iv : Int × V), iv ∈ firstIdx seen l → iv ∈ l ∧ iv.1 ∉ seen := by
+  induction l with
+  | nil => intro seen iv h; simp [firstIdx] at h
+  | cons a rest ih =>
+    intro seen iv h
+    unfold firstIdx at h
+    by_cases ha : a.1 ∈ seen
+    · simp only [ha, if_true] at h
+      obtain ⟨h1, h2⟩ := ih seen iv h
+      exact ⟨List.mem_cons_of_mem _ h1, h2⟩
+    · simp only [ha, if_false, List.mem_cons] at h
+      rcases h with rfl | h
+      · exact ⟨by simp, ha⟩
+      · obtain ⟨h1, h2⟩ := ih _ iv h
+        exact ⟨List.mem_cons_of_mem _ h1, fun hm => h2 (List.mem_cons_of_mem _ hm)⟩
+
+theorem firstIdx_nodup {V : Type} (l : List (Int × V)) :
+    ∀ seen : List Int, ((firstIdx seen l).map (·.1)).Nodup := by
+  induction l with
+  | nil => intro seen; simp [firstIdx]
+  | cons a rest ih =>
+    intro seen
+    unfold firstIdx
+    by_cases ha : a.1 ∈ seen
+    · simp only [ha, if_true]; exact ih seen
+    · simp only [ha, if_false, List.map_cons, List.nodup_cons]
+      refine ⟨?_, ih _⟩
+      intro hm
+      obtain ⟨iv, hiv, he⟩ := List.mem_map.1 hm
+      exact (firstIdx_mem rest _ iv hiv).2 (by rw [he]; simp)
+
+theorem insert_sdiff_card {α : Type} [DecidableEq α] (M S : Finset α) (i : α) (hi : i ∉ S) :
+    ((insert i M) \ S).card = (M \ (insert i S)).card + 1 := by
+  have h : (insert i M) \ S = insert i (M \ (insert i S)) := by
+    ext x
+    simp only [Finset.mem_sdiff, Finset.mem_insert]
+    constructor
+    · rintro ⟨h1 | h1, h2⟩
+      · exact Or.inl h1
+      · by_cases hx : x = i
+        · exact Or.inl hx
+        · exact Or.inr ⟨h1, fun h => by rcases h with h | h; exact hx h; exact h2 h⟩
+    · rintro (h1 | ⟨h1, h2⟩)
+      · subst h1; exact ⟨Or.inl rfl, hi⟩
+      · exact ⟨Or.inr h1, fun h => h2 (Or.inr h)⟩
+  rw [h, Finset.card_insert_of_notMem (by simp)]
+
+/-- the number of entries kept = the number of distinct indices not seen before -/
+theorem firstIdx_length {V : Type} (l : List (Int × V)) :
+    ∀ seen : List Int,
+      (firstIdx seen l).length = ((l.map (·.1)).toFinset \ seen.toFinset).card := by
+  induction l with
+  | nil => intro seen; simp [firstIdx]
+  | cons a rest ih =>
+    intro seen
+    unfold firstIdx
+    by_cases ha : a.1 ∈ seen
+    · simp only [ha, if_true, List.map_cons, List.toFinset_cons]
+      rw [ih seen, Finset.insert_sdiff_of_mem _ (by simpa using ha)]
+    · simp only [ha, if_false, List.map_cons, List.toFinset_cons, List.length_cons]
+      rw [ih, insert_sdiff_card _ _ _ (by simpa using ha)]
+      simp only [List.toFinset_cons]
+
+theorem firstIdx_length_nil {V : Type} (l : List (Int × V)) :
+    (firstIdx [] l).length = (l.map (·.1)).toFinset.card := by
+  rw [firstIdx_length]; simp
+
+/-- the distinct in-range indices that carry a value in a slice of private shares -/
+def idxPri (n : Nat) (shares : List (Option (PriShare F))) : Finset Int :=
+  ((shares.filterMap (usablePri n)).map (·.1)).toFinset
+
+/-- what `xScalarAux` collects, as `(x, value)` pairs: the first `t - cnt` usable entries that
+carry an index not seen before -/
 theorem xScalarAux_pairs (t n : Nat) (shares : List (Option (PriShare F))) :
-    ∀ pos cnt, cnt < t →
-      (xScalarAux t n pos cnt shares).map (fun nd => (nd.x, nd.v))
-        = ((shares.filterMap (usablePri n)).take (t - cnt)).map (fun iv => ((xOf iv.1 : F), iv.2)) := by
+    ∀ pos cnt seen, cnt < t →
+      (xScalarAux t n pos cnt seen shares).map (fun nd => (nd.x, nd.v))
+        = ((firstIdx seen (shares.filterMap (usablePri n))).take (t - cnt)).map
+            (fun iv => ((xOf iv.1 : F), iv.2)) := by
   induction shares with
-  | nil => intro pos cnt _; simp [xScalarAux]
+  | nil => intro pos cnt seen _; simp [xScalarAux, firstIdx]
   | cons s rest ih =>
-    intro pos cnt hc
+    intro pos cnt seen hc
     unfold xScalarAux
     cases hu : usablePri n s with
-    | none => simp only [List.filterMap_cons, hu]; exact ih _ _ hc
+    | none => simp only [List.filterMap_cons, hu]; exact ih _ _ _ hc
     | some iv =>
       obtain ⟨i, v⟩ := iv
       simp only [List.filterMap_cons, hu]
-      have h1 : t - cnt = (t - (cnt + 1)) + 1 := by omega
-      rw [h1, List.take_succ_cons]
-      by_cases hlast : cnt + 1 = t
-      · simp [hlast]
-      · simp only [hlast, if_false, List.map_cons]
-        rw [ih _ _ (by omega)]
+      unfold firstIdx
+      by_cases hs : i ∈ seen
+      · simp only [hs, if_true]; exact ih _ _ _ hc
+      · simp only [hs, if_false]
+        have h1 : t - cnt = (t - (cnt + 1)) + 1 := by omega
+        rw [h1, List.take_succ_cons]
+        by_cases hlast : cnt + 1 = t
+        · simp [hlast]
+        · simp only [hlast, if_false, List.map_cons]
+          rw [ih _ _ _ (by omega)]
+
+/-- for ANY `t` and `cnt` (also `t = 0`, where the `break` never fires): a prefix of the
+first-occurrence list -/
+theorem xScalarAux_prefix (t n : Nat) (shares : List (Option (PriShare F))) :
+    ∀ pos cnt seen, ∃ k,
+      (xScalarAux t n pos cnt seen shares).map (fun nd => (nd.x, nd.v))
+        = ((firstIdx seen (shares.filterMap (usablePri n))).take k).map
+            (fun iv => ((xOf iv.1 : F), iv.2)) := by
+  induction shares with
+  | nil => intro pos cnt seen; exact ⟨0, by simp [xScalarAux]⟩
+  | cons s rest ih =>
+    intro pos cnt seen
+    unfold xScalarAux
+    cases hu : usablePri n s with
+    | none => simp only [List.filterMap_cons, hu]; exact ih _ _ _
+    | some iv =>
+      obtain ⟨i, v⟩ := iv
+      simp only [List.filterMap_cons, hu]
+      unfold firstIdx
+      by_cases hs : i ∈ seen
+      · simp only [hs, if_true]; exact ih _ _ _
+      · simp only [hs, if_false]
+        by_cases hlast : cnt + 1 = t
+        · exact ⟨1, by simp [hlast]⟩
+        · obtain ⟨k, hk⟩ := ih (pos + 1) (cnt + 1) (i :: seen)
+          exact ⟨k + 1, by simp only [hlast, if_false, List.map_cons, List.take_succ_cons, hk]⟩
 
 /-- positions recorded by `xScalarAux` strictly increase (so they are distinct keys of the Go map) -/
 theorem xScalarAux_pos (t n : Nat) (shares : List (Option (PriShare F))) :
-    ∀ pos cnt, ((xScalarAux t n pos cnt shares).map (·.pos)).Pairwise (· < ·)
-      ∧ ∀ p ∈ (xScalarAux t n pos cnt shares).map (·.pos), pos ≤ p := by
+    ∀ pos cnt seen, ((xScalarAux t n pos cnt seen shares).map (·.pos)).Pairwise (· < ·)
+      ∧ ∀ p ∈ (xScalarAux t n pos cnt seen shares).map (·.pos), pos ≤ p := by
   induction shares with
-  | nil => intro pos cnt; simp [xScalarAux]
+  | nil => intro pos cnt seen; simp [xScalarAux]
   | cons s rest ih =>
-    intro pos cnt
+    intro pos cnt seen
     unfold xScalarAux
     cases hu : usablePri n s with
     | none =>
-      obtain ⟨h1, h2⟩ := ih (pos + 1) cnt
+      obtain ⟨h1, h2⟩ := ih (pos + 1) cnt seen
       exact ⟨h1, fun p hp => by have := h2 p hp; omega⟩
     | some iv =>
       obtain ⟨i, v⟩ := iv
-      by_cases hlast : cnt + 1 = t
-      · simp [hlast]
-      · obtain ⟨h1, h2⟩ := ih (pos + 1) (cnt + 1)
-        simp only [hlast, if_false, List.map_cons, List.pairwise_cons, List.mem_cons]
-        refine ⟨⟨fun p hp => by have := h2 p hp; omega, h1⟩, ?_⟩
-        rintro p (rfl | hp)
-        · exact Nat.le_refl _
-        · have := h2 p hp; omega
+      by_cases hs : i ∈ seen
+      · simp only [hs, if_true]
+        obtain ⟨h1, h2⟩ := ih (pos + 1) cnt seen
+        exact ⟨h1, fun p hp => by have := h2 p hp; omega⟩
+      · simp only [hs, if_false]
+        by_cases hlast : cnt + 1 = t
+        · simp [hlast]
+        · obtain ⟨h1, h2⟩ := ih (pos + 1) (cnt + 1) (i :: seen)
+          simp only [hlast, if_false, List.map_cons, List.pairwise_cons, List.mem_cons]
+          refine ⟨⟨fun p hp => by have := h2 p hp; omega, h1⟩, ?_⟩
+          rintro p (rfl | hp)
+          · exact Nat.le_refl _
+          · have := h2 p hp; omega
 
 /-! ### the interpolation loops -/
 
@@ -301,41 +418,55 @@ theorem usablePub_some {n : Nat} {s : Option (PubShare G)} {i : Int} {v : G}
     · simp at h
   · simp at h
 
+/-- the distinct in-range indices that carry a value in a slice of public shares -/
+def idxPub (n : Nat) (shares : List (Option (PubShare G))) : Finset Int :=
+  ((shares.filterMap (usablePub n)).map (·.1)).toFinset
+
 theorem xCommitAux_pairs (n : Nat) (shares : List (Option (PubShare G))) :
-    ∀ pos, (xCommitAux F n pos shares).map (fun nd => (nd.x, nd.v))
-        = (shares.filterMap (usablePub n)).map (fun iv => ((xOf iv.1 : F), iv.2)) := by
+    ∀ pos seen, (xCommitAux F n pos seen shares).map (fun nd => (nd.x, nd.v))
+        = (firstIdx seen (shares.filterMap (usablePub n))).map
+            (fun iv => ((xOf iv.1 : F), iv.2)) := by
   induction shares with
-  | nil => intro pos; simp [xCommitAux]
+  | nil => intro pos seen; simp [xCommitAux, firstIdx]
   | cons s rest ih =>
-    intro pos
+    intro pos seen
     unfold xCommitAux
     cases hu : usablePub n s with
-    | none => simp only [List.filterMap_cons, hu]; exact ih _
+    | none => simp only [List.filterMap_cons, hu]; exact ih _ _
     | some iv =>
       obtain ⟨i, v⟩ := iv
-      simp only [List.filterMap_cons, hu, List.map_cons]
-      rw [ih]
+      simp only [List.filterMap_cons, hu]
+      unfold firstIdx
+      by_cases hs : i ∈ seen
+      · simp only [hs, if_true]; exact ih _ _
+      · simp only [hs, if_false, List.map_cons]
+        rw [ih]
 
 theorem xCommitAux_pos (n : Nat) (shares : List (Option (PubShare G))) :
-    ∀ pos, ((xCommitAux F n pos shares).map (·.pos)).Pairwise (· < ·)
-      ∧ ∀ p ∈ (xCommitAux F n pos shares).map (·.pos), pos ≤ p := by
+    ∀ pos seen, ((xCommitAux F n pos seen shares).map (·.pos)).Pairwise (· < ·)
+      ∧ ∀ p ∈ (xCommitAux F n pos seen shares).map (·.pos), pos ≤ p := by
   induction shares with
-  | nil => intro pos; simp [xCommitAux]
+  | nil => intro pos seen; simp [xCommitAux]
   | cons s rest ih =>
-    intro pos
+    intro pos seen
     unfold xCommitAux
     cases hu : usablePub n s with
     | none =>
-      obtain ⟨h1, h2⟩ := ih (pos + 1)
+      obtain ⟨h1, h2⟩ := ih (pos + 1) seen
       exact ⟨h1, fun p hp => by have := h2 p hp; omega⟩
     | some iv =>
       obtain ⟨i, v⟩ := iv
-      obtain ⟨h1, h2⟩ := ih (pos + 1)
-      simp only [List.map_cons, List.pairwise_cons, List.mem_cons]
-      refine ⟨⟨fun p hp => by have := h2 p hp; omega, h1⟩, ?_⟩
-      rintro p (rfl | hp)
-      · exact Nat.le_refl _
-      · have := h2 p hp; omega
+      by_cases hs : i ∈ seen
+      · simp only [hs, if_true]
+        obtain ⟨h1, h2⟩ := ih (pos + 1) seen
+        exact ⟨h1, fun p hp => by have := h2 p hp; omega⟩
+      · simp only [hs, if_false]
+        obtain ⟨h1, h2⟩ := ih (pos + 1) (i :: seen)
+        simp only [List.map_cons, List.pairwise_cons, List.mem_cons]
+        refine ⟨⟨fun p hp => by have := h2 p hp; omega, h1⟩, ?_⟩
+        rintro p (rfl | hp)
+        · exact Nat.le_refl _
+        · have := h2 p hp; omega
 
 end Commit
 
@@ -377,149 +508,232 @@ theorem xOf_injOn {n : Nat} (h : CharGt F n) (a b : Int) (ha0 : 0 ≤ a) (han : 
 
 /-! ### `xScalar` / `RecoverCommit`'s map under the property's hypotheses -/
 
-theorem xScalar_length_le (t n : Nat) (shares : List (Option (PriShare F))) (ht : 0 < t) :
-    (xScalar shares t n).length = min t (shares.filterMap (usablePri n)).length := by
-  have hp := congrArg List.length (xScalarAux_pairs t n shares 0 0 ht)
-  simpa [xScalar] using hp
+/-- `len(x)` after `xScalar`: `t`, or the number of distinct usable indices if that is smaller -/
+theorem xScalar_length (t n : Nat) (shares : List (Option (PriShare F))) (ht : 0 < t) :
+    (xScalar shares t n).length = min t (idxPri n shares).card := by
+  have hp := congrArg List.length (xScalarAux_pairs t n shares 0 0 [] ht)
+  simp only [List.length_map, List.length_take, Nat.sub_zero, firstIdx_length_nil] at hp
+  exact hp
+
+theorem usablePri_range {n : Nat} {shares : List (Option (PriShare F))} :
+    ∀ iv ∈ shares.filterMap (usablePri n), 0 ≤ iv.1 ∧ iv.1 < (n : Int) := by
+  intro iv hiv
+  obtain ⟨s, _, hs⟩ := List.mem_filterMap.1 hiv
+  exact (usablePri_some (i := iv.1) (v := iv.2) hs).2
+
+/-- distinct in-range indices are distinct evaluation points -/
+theorem nodup_xOf {n : Nat} (hc : CharGt F n) {V : Type} (l : List (Int × V))
+    (hr : ∀ iv ∈ l, 0 ≤ iv.1 ∧ iv.1 < (n : Int)) (hd : (l.map (·.1)).Nodup) :
+    ((l.map (·.1)).map (fun i => (xOf i : F))).Nodup := by
+  apply List.Nodup.map_on _ hd
+  intro a ha b hb hab
+  obtain ⟨iva, hiva, rfl⟩ := List.mem_map.1 ha
+  obtain ⟨ivb, hivb, rfl⟩ := List.mem_map.1 hb
+  have ra := hr iva hiva
+  have rb := hr ivb hivb
+  exact xOf_injOn hc _ _ ra.1 ra.2 rb.1 rb.2 hab
+
+/-- whatever the slice holds (any values, any repetitions, any `t`): the keys of the map are
+distinct and so are the evaluation points – no Lagrange denominator can vanish -/
+theorem xScalar_keys (t n : Nat) (hc : CharGt F n) (shares : List (Option (PriShare F))) :
+    ((xScalar shares t n).map (·.pos)).Nodup ∧ ((xScalar shares t n).map (·.x)).Nodup := by
+  refine ⟨nodup_of_pairwise_lt (xScalarAux_pos t n shares 0 0 []).1, ?_⟩
+  obtain ⟨k, hk⟩ := xScalarAux_prefix t n shares 0 0 []
+  have hx : (xScalar shares t n).map (·.x)
+      = (((firstIdx [] (shares.filterMap (usablePri n))).take k).map (·.1)).map
+          (fun i => (xOf i : F)) := by
+    have := congrArg (List.map Prod.fst) hk
+    simp only [xScalar, List.map_map] at this ⊢
+    exact this
+  rw [hx]
+  apply nodup_xOf hc
+  · intro iv hiv
+    exact usablePri_range iv (firstIdx_mem _ _ iv (List.mem_of_mem_take hiv)).1
+  · rw [List.map_take]
+    exact (firstIdx_nodup _ _).sublist (List.take_sublist _ _)
+
+/-- **the map of `xScalar` under the property's hypotheses**: every usable entry is a true share
+of `f`, and at least `t` DISTINCT indices are usable – anywhere in the slice, repeated or not. -/
+theorem xScalar_spec (f : List F) (t n : Nat) (ht : 0 < t) (hc : CharGt F n)
+    (shares : List (Option (PriShare F)))
+    (hval : ∀ iv ∈ shares.filterMap (usablePri n), iv.2 = priEval f iv.1)
+    (hcnt : t ≤ (idxPri n shares).card) :
+    GoodS (xScalar shares t n) (toPoly f) ∧ (xScalar shares t n).length = t := by
+  have hp := xScalarAux_pairs t n shares 0 0 [] ht
+  simp only [Nat.sub_zero] at hp
+  have hlen : (xScalar shares t n).length = t := by
+    rw [xScalar_length t n shares ht]; omega
+  obtain ⟨hpos, hx⟩ := xScalar_keys t n hc shares
+  refine ⟨⟨hpos, hx, ?_⟩, hlen⟩
+  intro nd hnd
+  have hmem : (nd.x, nd.v) ∈ (xScalarAux t n 0 0 [] shares).map (fun nd => (nd.x, nd.v)) :=
+    List.mem_map.2 ⟨nd, hnd, rfl⟩
+  rw [hp] at hmem
+  obtain ⟨iv, hiv, he⟩ := List.mem_map.1 hmem
+  simp only [Prod.mk.injEq] at he
+  rw [← he.2, ← he.1, hval iv (firstIdx_mem _ _ iv (List.mem_of_mem_take hiv)).1, priEval_eq]
+
+/-- the hypothesis of the earlier rounds (the first `t` usable entries carry distinct indices) is
+a special case -/
+theorem card_of_take_nodup {V : Type} (l : List (Int × V)) (t : Nat) (hcnt : t ≤ l.length)
+    (hdist : ((l.take t).map (·.1)).Nodup) : t ≤ (l.map (·.1)).toFinset.card := by
+  have h1 : ((l.take t).map (·.1)).toFinset.card = t := by
+    rw [List.toFinset_card_of_nodup hdist]; simp [hcnt]
+  rw [← h1]
+  apply Finset.card_le_card
+  intro x hx
+  simp only [List.mem_toFinset, List.mem_map] at hx ⊢
+  obtain ⟨iv, hiv, rfl⟩ := hx
+  exact ⟨iv, List.mem_of_mem_take hiv, rfl⟩
 
 theorem xScalar_good (f : List F) (t n : Nat) (ht : 0 < t) (hc : CharGt F n)
     (shares : List (Option (PriShare F)))
     (hval : ∀ iv ∈ shares.filterMap (usablePri n), iv.2 = priEval f iv.1)
     (hcnt : t ≤ (shares.filterMap (usablePri n)).length)
     (hdist : (((shares.filterMap (usablePri n)).take t).map (·.1)).Nodup) :
-    GoodS (xScalar shares t n) (toPoly f) ∧ (xScalar shares t n).length = t := by
-  have hp := xScalarAux_pairs t n shares 0 0 ht
-  simp only [Nat.sub_zero] at hp
-  have hlen : (xScalar shares t n).length = t := by
-    rw [xScalar_length_le t n shares ht]; omega
-  have hrange : ∀ iv ∈ shares.filterMap (usablePri n), 0 ≤ iv.1 ∧ iv.1 < (n : Int) := by
-    intro iv hiv
-    obtain ⟨s, _, hs⟩ := List.mem_filterMap.1 hiv
-    exact (usablePri_some (i := iv.1) (v := iv.2) hs).2
-  have hx : (xScalar shares t n).map (·.x)
-      = (((shares.filterMap (usablePri n)).take t).map (·.1)).map (fun i => (xOf i : F)) := by
-    have := congrArg (List.map Prod.fst) hp
-    simp only [xScalar, List.map_map, List.map_take] at this ⊢
-    exact this
-  refine ⟨⟨nodup_of_pairwise_lt (xScalarAux_pos t n shares 0 0).1, ?_, ?_⟩, hlen⟩
-  · rw [hx]
-    apply List.Nodup.map_on _ hdist
-    intro a ha b hb hab
-    obtain ⟨iva, hiva, rfl⟩ := List.mem_map.1 ha
-    obtain ⟨ivb, hivb, rfl⟩ := List.mem_map.1 hb
-    have ra := hrange iva (List.mem_of_mem_take hiva)
-    have rb := hrange ivb (List.mem_of_mem_take hivb)
-    exact xOf_injOn hc _ _ ra.1 ra.2 rb.1 rb.2 hab
-  · intro nd hnd
-    have hmem : (nd.x, nd.v) ∈ (xScalarAux t n 0 0 shares).map (fun nd => (nd.x, nd.v)) :=
-      List.mem_map.2 ⟨nd, hnd, rfl⟩
-    rw [hp] at hmem
-    obtain ⟨iv, hiv, he⟩ := List.mem_map.1 hmem
-    simp only [Prod.mk.injEq] at he
-    rw [← he.2, ← he.1, hval iv (List.mem_of_mem_take hiv), priEval_eq]
+    GoodS (xScalar shares t n) (toPoly f) ∧ (xScalar shares t n).length = t :=
+  xScalar_spec f t n ht hc shares hval (card_of_take_nodup _ t hcnt hdist)
+
+/-- **`RecoverSecret` never panics** – any slice, any values, any `t`, both division behaviours:
+the denominators are products of differences of distinct evaluation points. -/
+theorem recoverSecret_no_panic (dp : Bool) (t n : Nat) (hc : CharGt F n)
+    (shares : List (Option (PriShare F))) :
+    recoverSecret dp shares t n = .err .few ∨ ∃ v, recoverSecret dp shares t n = .ok v := by
+  obtain ⟨hpos, hx⟩ := xScalar_keys t n hc shares
+  unfold recoverSecret
+  by_cases hlt : (xScalar shares t n).length < t
+  · left; simp [hlt]
+  · right
+    simp only [hlt, if_false]
+    exact ⟨_, secret_fold dp _ _ (fun i hi => den_ne_zero _ hpos hx i hi _) 0⟩
+
+/-- `RecoverPriPoly` has no division that can fail (`Inv` of 0 stays 0) and `PriPoly.Add` returns
+an error, not a panic: the fold over the map never panics -/
+theorem polyStep_fold_no_panic (g : Nat) (xs ys : List (Node F F)) (acc : Out (Option (PriPoly F)))
+    (hacc : ∀ s, acc ≠ .panic s) : ∀ s, ys.foldl (polyStep g xs) acc ≠ .panic s := by
+  induction ys generalizing acc with
+  | nil => simpa using hacc
+  | cons j ys ih =>
+    rw [List.foldl_cons]
+    apply ih
+    intro s
+    unfold polyStep
+    cases acc with
+    | ok cur =>
+      cases cur with
+      | none => simp
+      | some a =>
+        simp only
+        unfold priAdd
+        split_ifs <;> simp
+    | err e => simp
+    | panic s' => exact absurd rfl (hacc s')
+
+theorem recoverPriPoly_no_panic (g t n : Nat) (shares : List (Option (PriShare F))) :
+    ∀ s, recoverPriPoly g shares t n ≠ .panic s := by
+  intro s
+  have h := polyStep_fold_no_panic g (xScalar shares t n) (xScalar shares t n) (.ok none)
+    (by simp)
+  unfold recoverPriPoly
+  simp only
+  split_ifs
+  · simp
+  · split <;> simp_all
 
 section CommitGlue
 variable {G : Type} [AddCommGroup G] [Module F G] [DecidableEq G]
 
-theorem xCommit_good (f : List F) (B : G) (n : Nat) (hc : CharGt F n)
-    (shares : List (Option (PubShare G)))
-    (hval : ∀ iv ∈ shares.filterMap (usablePub n), iv.2 = priEval f iv.1 • B)
-    (hdist : ((shares.filterMap (usablePub n)).map (·.1)).Nodup) :
-    GoodP (xCommitAux F n 0 shares) (toPoly f) B
-      ∧ (xCommitAux F n 0 shares).length = (shares.filterMap (usablePub n)).length := by
-  have hp := xCommitAux_pairs (F := F) n shares 0
-  have hlen : (xCommitAux F n 0 shares).length = (shares.filterMap (usablePub n)).length := by
-    simpa using congrArg List.length hp
-  have hrange : ∀ iv ∈ shares.filterMap (usablePub n), 0 ≤ iv.1 ∧ iv.1 < (n : Int) := by
-    intro iv hiv
-    obtain ⟨s, _, hs⟩ := List.mem_filterMap.1 hiv
-    exact (usablePub_some (i := iv.1) (v := iv.2) hs).2
-  have hx : (xCommitAux F n 0 shares).map (·.x)
-      = ((shares.filterMap (usablePub n)).map (·.1)).map (fun i => (xOf i : F)) := by
+theorem usablePub_range {n : Nat} {shares : List (Option (PubShare G))} :
+    ∀ iv ∈ shares.filterMap (usablePub n), 0 ≤ iv.1 ∧ iv.1 < (n : Int) := by
+  intro iv hiv
+  obtain ⟨s, _, hs⟩ := List.mem_filterMap.1 hiv
+  exact (usablePub_some (i := iv.1) (v := iv.2) hs).2
+
+theorem xCommit_length (n : Nat) (shares : List (Option (PubShare G))) :
+    (xCommitAux F n 0 [] shares).length = (idxPub n shares).card := by
+  have := congrArg List.length (xCommitAux_pairs (F := F) n shares 0 [])
+  simpa [firstIdx_length_nil, idxPub] using this
+
+/-- whatever the slice holds: distinct keys and distinct evaluation points -/
+theorem xCommit_keys (n : Nat) (hc : CharGt F n) (shares : List (Option (PubShare G))) :
+    ((xCommitAux F n 0 [] shares).map (·.pos)).Nodup
+      ∧ ((xCommitAux F n 0 [] shares).map (·.x)).Nodup := by
+  have hp := xCommitAux_pairs (F := F) n shares 0 []
+  have hx : (xCommitAux F n 0 [] shares).map (·.x)
+      = ((firstIdx [] (shares.filterMap (usablePub n))).map (·.1)).map
+          (fun i => (xOf i : F)) := by
     have := congrArg (List.map Prod.fst) hp
     simp only [List.map_map] at this ⊢
     exact this
-  refine ⟨⟨nodup_of_pairwise_lt (xCommitAux_pos (F := F) n shares 0).1, ?_, ?_⟩, hlen⟩
-  · rw [hx]
-    apply List.Nodup.map_on _ hdist
-    intro a ha b hb hab
-    obtain ⟨iva, hiva, rfl⟩ := List.mem_map.1 ha
-    obtain ⟨ivb, hivb, rfl⟩ := List.mem_map.1 hb
-    have ra := hrange iva hiva
-    have rb := hrange ivb hivb
-    exact xOf_injOn hc _ _ ra.1 ra.2 rb.1 rb.2 hab
-  · intro nd hnd
-    have hmem : (nd.x, nd.v) ∈ (xCommitAux F n 0 shares).map (fun nd => (nd.x, nd.v)) :=
-      List.mem_map.2 ⟨nd, hnd, rfl⟩
-    rw [hp] at hmem
-    obtain ⟨iv, hiv, he⟩ := List.mem_map.1 hmem
-    simp only [Prod.mk.injEq] at he
-    rw [← he.2, ← he.1, hval iv hiv, priEval_eq]
+  refine ⟨nodup_of_pairwise_lt (xCommitAux_pos (F := F) n shares 0 []).1, ?_⟩
+  rw [hx]
+  apply nodup_xOf hc
+  · intro iv hiv
+    exact usablePub_range iv (firstIdx_mem _ _ iv hiv).1
+  · exact firstIdx_nodup _ _
+
+theorem xCommit_good (f : List F) (B : G) (n : Nat) (hc : CharGt F n)
+    (shares : List (Option (PubShare G)))
+    (hval : ∀ iv ∈ shares.filterMap (usablePub n), iv.2 = priEval f iv.1 • B) :
+    GoodP (xCommitAux F n 0 [] shares) (toPoly f) B := by
+  have hp := xCommitAux_pairs (F := F) n shares 0 []
+  obtain ⟨hpos, hx⟩ := xCommit_keys (F := F) n hc shares
+  refine ⟨hpos, hx, ?_⟩
+  intro nd hnd
+  have hmem : (nd.x, nd.v) ∈ (xCommitAux F n 0 [] shares).map (fun nd => (nd.x, nd.v)) :=
+    List.mem_map.2 ⟨nd, hnd, rfl⟩
+  rw [hp] at hmem
+  obtain ⟨iv, hiv, he⟩ := List.mem_map.1 hmem
+  simp only [Prod.mk.injEq] at he
+  rw [← he.2, ← he.1, hval iv (firstIdx_mem _ _ iv hiv).1, priEval_eq]
 
 end CommitGlue
 
 section CommitTotal
 variable {G : Type} [AddCommGroup G] [Module F G] [DecidableEq G]
 
-/-- distinct in-range indices give distinct keys and distinct evaluation points -/
-theorem xCommit_keys (n : Nat) (hc : CharGt F n) (shares : List (Option (PubShare G)))
-    (hdist : ((shares.filterMap (usablePub n)).map (·.1)).Nodup) :
-    ((xCommitAux F n 0 shares).map (·.pos)).Nodup ∧ ((xCommitAux F n 0 shares).map (·.x)).Nodup := by
-  have hp := xCommitAux_pairs (F := F) n shares 0
-  have hrange : ∀ iv ∈ shares.filterMap (usablePub n), 0 ≤ iv.1 ∧ iv.1 < (n : Int) := by
-    intro iv hiv
-    obtain ⟨s, _, hs⟩ := List.mem_filterMap.1 hiv
-    exact (usablePub_some (i := iv.1) (v := iv.2) hs).2
-  have hx : (xCommitAux F n 0 shares).map (·.x)
-      = ((shares.filterMap (usablePub n)).map (·.1)).map (fun i => (xOf i : F)) := by
-    have := congrArg (List.map Prod.fst) hp
-    simp only [List.map_map] at this ⊢
-    exact this
-  refine ⟨nodup_of_pairwise_lt (xCommitAux_pos (F := F) n shares 0).1, ?_⟩
-  rw [hx]
-  apply List.Nodup.map_on _ hdist
-  intro a ha b hb hab
-  obtain ⟨iva, hiva, rfl⟩ := List.mem_map.1 ha
-  obtain ⟨ivb, hivb, rfl⟩ := List.mem_map.1 hb
-  have ra := hrange iva hiva
-  have rb := hrange ivb hivb
-  exact xOf_injOn hc _ _ ra.1 ra.2 rb.1 rb.2 hab
-
-/-- `RecoverCommit` on distinct in-range indices never divides by zero, whatever the values -/
+/-- **`RecoverCommit` never panics** – any slice, any values, any `t`: no division by zero -/
 theorem recoverCommit_no_panic (dp : Bool) (t n : Nat) (hc : CharGt F n)
-    (shares : List (Option (PubShare G)))
-    (hdist : ((shares.filterMap (usablePub n)).map (·.1)).Nodup) :
+    (shares : List (Option (PubShare G))) :
     recoverCommit (S := F) dp shares t n = .err .few ∨ ∃ c, recoverCommit (S := F) dp shares t n = .ok c := by
-  obtain ⟨hpos, hx⟩ := xCommit_keys n hc shares hdist
+  obtain ⟨hpos, hx⟩ := xCommit_keys (F := F) n hc shares
   unfold recoverCommit
-  by_cases hlt : (xCommitAux F n 0 shares).length < t
+  by_cases hlt : (xCommitAux F n 0 [] shares).length < t
   · left; simp [hlt]
   · right
     simp only [hlt, if_false]
     exact ⟨_, commit_fold dp _ _ (fun i hi => den_ne_zero _ hpos hx i hi _) 0⟩
 
-/-- `RecoverCommit` returns `f(0) • B` from `≥ t ≥ len f` public shares of distinct members -/
+/-- `RecoverCommit` returns `f(0) • B` whenever the usable entries are public shares of `f` and
+`≥ t ≥ len f` DISTINCT indices are among them (repetitions allowed) -/
 theorem recoverCommit_ok (dp : Bool) (f : List F) (B : G) (t n : Nat) (hf : f.length ≤ t)
     (hc : CharGt F n) (shares : List (Option (PubShare G)))
     (hval : ∀ iv ∈ shares.filterMap (usablePub n), iv.2 = priEval f iv.1 • B)
-    (hcnt : t ≤ (shares.filterMap (usablePub n)).length)
-    (hdist : ((shares.filterMap (usablePub n)).map (·.1)).Nodup) :
+    (hcnt : t ≤ (idxPub n shares).card) :
     recoverCommit (S := F) dp shares t n = .ok (f.headD 0 • B) := by
-  obtain ⟨hg, hlen⟩ := xCommit_good f B n hc shares hval hdist
-  have hdeg : (toPoly f).degree < (xCommitAux F n 0 shares).length := by
+  have hg := xCommit_good f B n hc shares hval
+  have hlen := xCommit_length (F := F) n shares
+  have hdeg : (toPoly f).degree < (xCommitAux F n 0 [] shares).length := by
     rw [hlen]; exact lt_of_lt_of_le (degree_toPoly_lt f) (by exact_mod_cast le_trans hf hcnt)
   unfold recoverCommit
-  have : ¬ (xCommitAux F n 0 shares).length < t := by rw [hlen]; omega
+  have : ¬ (xCommitAux F n 0 [] shares).length < t := by rw [hlen]; omega
   simp only [this, if_false]
   rw [commit_fold_good dp _ _ B hg hdeg, eval_zero_toPoly]
 
+/-- fewer than `t` distinct usable indices: an error -/
 theorem recoverCommit_few (dp : Bool) (t n : Nat) (shares : List (Option (PubShare G)))
-    (hfew : (shares.filterMap (usablePub n)).length < t) :
+    (hfew : (idxPub n shares).card < t) :
     recoverCommit (S := F) dp shares t n = .err .few := by
-  have hlen : (xCommitAux F n 0 shares).length = (shares.filterMap (usablePub n)).length := by
-    simpa using congrArg List.length (xCommitAux_pairs (F := F) n shares 0)
+  have hlen := xCommit_length (F := F) n shares
   unfold recoverCommit
   simp [hlen, hfew]
+
+/-- when no index repeats, the count of distinct indices is the count of usable entries -/
+theorem idxPub_card_of_nodup (n : Nat) (shares : List (Option (PubShare G)))
+    (hdist : ((shares.filterMap (usablePub n)).map (·.1)).Nodup) :
+    (idxPub n shares).card = (shares.filterMap (usablePub n)).length := by
+  unfold idxPub
+  rw [List.toFinset_card_of_nodup hdist]; simp
 
 end CommitTotal
 
